@@ -195,10 +195,12 @@ def _frame_local(tb, func_names, var):
     return found
 
 
-def run_model_ctor(dims):
+def run_model_ctor(dims, container="list"):
     """GlobalHierarchicalModel(dist_descriptions) on the real code"""
     try:
         descs = [build_desc(d) for d in dims]
+        if container == "tuple":
+            descs = tuple(descs)
     except Exception as e:  # noqa: BLE001  (building the ingredients must not fail)
         raise RuntimeError(f"harness could not build the description: {e!r}")
     try:
@@ -275,6 +277,8 @@ def downstream(dims):
 def mal_class(dims):
     """the classes of malformation present (for signatures and the input distribution)"""
     out = []
+    if not dims:
+        out.append("empty_model")
     for i, d in enumerate(dims):
         if not d["has_dist"]:
             out.append("no_distribution")
@@ -371,8 +375,14 @@ def neighbours(d, i):
 
 def model_cases(rng, thorough):
     """single malformations and their neighbours, exhaustive over structure x position x family"""
+    # no dimension at all (the model's `emptyModel`; WellFormedModel demands ds != [])
+    for cont in ("list", "tuple"):
+        yield {"entry": "model", "gen": "single:empty_model", "variant": cont, "container": cont, "dims": []}
     for n in (1, 2, 3, 4):
         for si, c in enumerate(structures(n)):
+            # the description list handed over as a tuple (any sequence of dicts is taken)
+            yield {"entry": "model", "gen": "neighbour:container_tuple", "container": "tuple",
+                   "dims": [base_dim(FAMILIES[(si + k) % len(FAMILIES)], c[k]) for k in range(n)]}
             for i in range(n):
                 for fam in FAMILIES:
                     others = [FAMILIES[(si + k + i) % 7] for k in range(n)]
@@ -447,14 +457,14 @@ def pmap(fn, items):
     return POOL.map(fn, items, chunksize=max(1, min(500, len(items) // 32)))
 
 
-def _impl_model(dims):
-    return run_model_ctor(dims)[0]
+def _impl_model(x):
+    return run_model_ctor(x[0], x[1])[0]
 
 
 def process_model(ck, cases, state):
     lines = [desc_line(c["dims"]) for c in cases]
     answers = ck.driver.run(lines) if lines else []
-    impls = pmap(_impl_model, [c["dims"] for c in cases])
+    impls = pmap(_impl_model, [(c["dims"], c.get("container", "list")) for c in cases])
     for case, ans, impl in zip(cases, answers, impls):
         dims = case["dims"]
         model = parse_ans(ans)
@@ -469,7 +479,7 @@ def process_model(ck, cases, state):
         ck.count("model:" + ("wellformed" if wf else "illformed"))
         for cl in classes:
             ck.count("class=" + cl)
-        if not wf:
+        if not wf and dims:
             ck.count("carrier=" + dims[case["pos"] if isinstance(case.get("pos"), int) else 0]["fam"])
         failed = False
         # the model's verdict is the declarative predicate (theorem model_desc_ok_iff_wellformed)
@@ -543,6 +553,9 @@ def mk_slicer(s):
         kw["min_n_intervals"] = s["min_n_intervals"]
     for k in s.get("unknown_kwargs", []):
         kw[k] = 1
+    for k, v in s.get("options", {}).items():
+        # the named options of the three slicer classes; on the wrong class they end up in **kwargs
+        kw[k] = tuple(v) if isinstance(v, list) else v
     ref = s.get("ref", ["default"])
     if ref[0] == "str":
         kw["reference"] = ref[1]
@@ -571,19 +584,36 @@ def ref_tag(s):
     return "other"
 
 
+OWN_OPTIONS = {"width": ("right_open", "value_range"), "number": ("include_max", "value_range"), "ppi": ("last_full",)}
+
+
+def misplaced_options(s):
+    """named options that belong to another slicer class (for this class: unknown keyword arguments)"""
+    return [k for k in s.get("options", {}) if k not in OWN_OPTIONS[s["kind"]]]
+
+
 def n_kept(s, x):
     """number of intervals with >= min_n_points observations (own computation, not the slicer's)"""
     x = np.asarray(x, dtype=float)
     mp = 50 if s.get("min_n_points") is None else s["min_n_points"]
+    opt = {k: v for k, v in s.get("options", {}).items() if k in OWN_OPTIONS[s["kind"]]}
+    vr = opt.get("value_range")
     if s["kind"] == "width":
         w = s["width"]
-        starts = np.arange(0, np.max(x) + w, w)
-        counts = [int(np.sum((lo <= x) & (x < lo + w))) for lo in starts]
+        lo0 = 0 if vr is None or vr[0] is None else vr[0]
+        hi0 = np.max(x) if vr is None or vr[1] is None else vr[1]
+        starts = np.arange(lo0, hi0 + w, w)
+        if opt.get("right_open", True):
+            counts = [int(np.sum((lo <= x) & (x < lo + w))) for lo in starts]
+        else:
+            counts = [int(np.sum((lo < x) & (x <= lo + w))) for lo in starts]
     elif s["kind"] == "number":
         k = s["n_intervals"]
-        lo, hi = float(np.min(x)), float(np.max(x))
+        lo, hi = (float(np.min(x)), float(np.max(x))) if vr is None else (float(vr[0]), float(vr[1]))
         edges = lo + (hi - lo) * np.arange(k + 1) / k
-        counts = [int(np.sum((edges[j] <= x) & ((x < edges[j + 1]) if j < k - 1 else (x <= hi)))) for j in range(k)]
+        incl = opt.get("include_max", True)
+        counts = [int(np.sum((edges[j] <= x) & ((x < edges[j + 1]) if (j < k - 1 or not incl) else (x <= hi))))
+                  for j in range(k)]
     else:
         npts = s["n_points"]
         mp = min(mp, npts)
@@ -1091,6 +1121,27 @@ def slicer_cases(rng, thorough):
             for ref in (["str", "foo"], ["str", "centre"], ["str", "median"], ["int"], ["none"]):
                 yield var("single:unknown_reference", ref=ref)
                 yield var("pair:unknown_reference+too_few", ref=ref, min_n_intervals=30)
+            # the named options of the slicer classes: accepted by the class that defines them, an unknown
+            # keyword argument for the other classes (they arrive in **kwargs of IntervalSlicer.__init__)
+            named = [("right_open", False), ("right_open", True), ("include_max", False), ("include_max", True),
+                     ("last_full", False), ("last_full", True), ("value_range", [0.5, 3.0]), ("value_range", [1.0, 4.0])]
+            if b["kind"] == "width":
+                named += [("value_range", [None, 3.0]), ("value_range", [0.5, None]), ("value_range", [None, None])]
+            for k, v in named:
+                own = k in OWN_OPTIONS[b["kind"]]
+                yield var("neighbour:own_option" if own else "single:misplaced_option", options={k: v},
+                          min_n_intervals=2)
+                if not own:
+                    yield var("pair:misplaced_option+reference", options={k: v}, ref=["str", "foo"])
+                    yield var("pair:misplaced_option+own_option",
+                              options={k: v, OWN_OPTIONS[b["kind"]][0]: False})
+            # the constructor arguments of the other classes are unknown keywords as well
+            for k in ("width", "n_intervals", "n_points"):
+                if k not in b:
+                    yield var("single:misplaced_option", unknown_kwargs=[k])
+            if b["kind"] != "ppi":
+                yield var("neighbour:own_option", options={OWN_OPTIONS[b["kind"]][0]: False, "value_range": [0.5, 3.5]},
+                          min_n_intervals=2)
             for mn in (0, 1, 2, 3, 4, 5, 6, 9, 30):
                 yield var("minn", min_n_intervals=mn)
             for mp in (1, 5, 11, 20, 41):
@@ -1101,14 +1152,14 @@ def slicer_cases(rng, thorough):
 def slicer_line(case):
     s = case["slicer"]
     x = fit_data(case["n_rows"], 1, case["data_seed"])[:, 0]
-    return ["RUN", "c18slicer", s["kind"], str(len(s.get("unknown_kwargs", []))), ref_tag(s),
+    return ["RUN", "c18slicer", s["kind"], str(len(s.get("unknown_kwargs", [])) + len(misplaced_options(s))), ref_tag(s),
             str(s.get("n_intervals", 0)), str(eff_min_n(s)), str(n_kept(s, x))]
 
 
 def wf_slicer(case):
     s = case["slicer"]
     x = fit_data(case["n_rows"], 1, case["data_seed"])[:, 0]
-    if s.get("unknown_kwargs"):
+    if s.get("unknown_kwargs") or misplaced_options(s):
         return False
     rt = ref_tag(s)
     if s["kind"] == "ppi":
@@ -1352,6 +1403,141 @@ def process_grid(ck, cases, state):
                 ck.diverge("validateGrid", case, d)
 
 
+# NaN in the density table of a HighestDensityContour (anchored raise sites contours.py `_compute` and
+# `cumsum_biggest_until`); the property's list does not name this input class: correspondence only, no oracle
+
+
+def density_cases(rng, thorough):
+    for n in (1, 2, 3):
+        yield {"entry": "density", "gen": "neighbour:finite_density", "site": "contour", "n_dim": n, "nan_at": None}
+        for k in range(n):
+            yield {"entry": "density", "gen": "nan_density", "site": "contour", "n_dim": n, "nan_at": k}
+    for shape in ([4], [3, 3], [2, 3, 2]):
+        yield {"entry": "density", "gen": "neighbour:finite_density", "site": "cumsum", "shape": shape, "nan_at": None}
+        size = int(np.prod(shape))
+        for k in sorted({0, size // 2, size - 1}):
+            yield {"entry": "density", "gen": "nan_density", "site": "cumsum", "shape": shape, "nan_at": k}
+
+
+def run_density(case):
+    nan = float("nan")
+    try:
+        with warnings.catch_warnings():
+            warnings.simplefilter("ignore")
+            if case["site"] == "contour":
+                n = case["n_dim"]
+                descs = []
+                for k in range(n):
+                    bad = case["nan_at"] == k
+                    if k % 2 == 0:
+                        descs.append({"distribution": V.WeibullDistribution(nan if bad else 1.5, 2.0, 0.0)})
+                    else:
+                        descs.append({"distribution": V.NormalDistribution(nan if bad else 2.0, 0.8)})
+                m = V.GlobalHierarchicalModel(descs)
+                c = V.HighestDensityContour(m, 0.1, limits=[(0, 4)] * n, deltas=0.5)
+                return {"status": "accepted", "where": "HighestDensityContour", "n_coords": len(c.coordinates)}
+            a = np.linspace(0.02, 0.3, int(np.prod(case["shape"])))
+            a = a / a.sum()
+            if case["nan_at"] is not None:
+                a[case["nan_at"]] = nan
+            fields, last = V.HighestDensityContour.cumsum_biggest_until(a.reshape(case["shape"]), 0.6)
+            return {"status": "accepted", "where": "cumsum_biggest_until", "last": float(last)}
+    except Exception as e:  # noqa: BLE001
+        return {"status": "rejected", "kind": kind_of(e), "where": case["site"], "msg": str(e)[:120]}
+
+
+def process_density(ck, cases, state):
+    answers = ck.driver.run([["RUN", "c18density", "0" if c["nan_at"] is None else "1"] for c in cases]) if cases else []
+    for case, ans in zip(cases, answers):
+        model = parse_ans(ans)
+        impl = run_density(case)
+        ck.case(case, nontrivial=True, sample=(state["n"] % 7 == 0))
+        state["n"] += 1
+        ck.count("entry=density")
+        ck.count("density:" + case["site"] + ":" + ("nan" if case["nan_at"] is not None else "finite") + ":" + impl["status"])
+        if impl["status"] != model["status"]:
+            ck.diverge("validateDensity", case, f"impl {impl} model {model}")
+        elif impl["status"] == "rejected" and impl["kind"] != model["kind"]:
+            ck.diverge("validateDensity", case, f"exception class impl {impl['kind']} ({impl.get('msg')}) model {model['kind']}")
+
+
+# inputs the property's list does not name and the code does not check: only OBSERVED (what the code does is
+# counted in the evidence, nothing is demanded of it, nothing is modelled)
+
+
+def observe_cases(rng, thorough):
+    for n in (1, 2, 3):
+        for fn in ("pdf", "cdf"):
+            for cols in (n - 1, n + 1):
+                # the joint cdf is an n-fold quadrature: a surplus column is only tried where that is cheap
+                if cols >= 1 and (fn == "pdf" or cols < n or n == 1):
+                    yield {"entry": "observe", "gen": "observed:point_columns", "fn": fn, "n_dim": n, "cols": cols}
+        for fn in ("marginal_pdf", "marginal_cdf", "marginal_icdf"):
+            for dim in range(n):
+                if fn == "marginal_cdf" and n == 3 and dim == 1:
+                    continue  # nested quadrature over the conditioning variable: minutes
+                for bad in ("nan", "inf"):
+                    yield {"entry": "observe", "gen": "observed:marginal_non_finite", "fn": fn, "n_dim": n, "dim": dim,
+                           "bad": bad}
+        for k in range(n):
+            for deltas in (0.5, None):
+                yield {"entry": "observe", "gen": "observed:hdc_reversed_limit", "n_dim": n, "pos": k, "deltas": deltas}
+
+
+def _outcome(fn):
+    try:
+        with warnings.catch_warnings():
+            warnings.simplefilter("ignore")
+            r = np.asarray(fn(), dtype=float)
+        return "returned:" + ("finite" if np.all(np.isfinite(r)) else "non_finite_values"), r
+    except Exception as e:  # noqa: BLE001
+        return "raised:" + kind_of(e), None
+
+
+def process_observe(ck, cases, state):
+    models = state["eval_models"]
+    real_empty_like = np.empty_like
+    for case in cases:
+        m = models[case["n_dim"]]
+        g = case["gen"].split(":")[1]
+        if g == "point_columns":
+            x = np.full((2 if case["fn"] == "pdf" else 1, case["cols"]), 1.25)
+            res = []
+            for fill in (0.25, 7.5):
+                def filled(a, *args, _v=fill, **kw):
+                    out = real_empty_like(a, *args, **kw)
+                    out[...] = _v
+                    return out
+                np.empty_like = filled
+                try:
+                    o, r = _outcome(lambda: getattr(m, case["fn"])(x))
+                finally:
+                    np.empty_like = real_empty_like
+                res.append((o, r))
+            o = res[0][0]
+            if res[0][1] is not None and res[1][1] is not None and not np.array_equal(res[0][1], res[1][1], equal_nan=True):
+                o += ":value_depends_on_uninitialised_memory"
+            key = "%s:%s_columns" % (case["fn"], "too_many" if case["cols"] > case["n_dim"] else "too_few")
+        elif g == "marginal_non_finite":
+            v = {"nan": float("nan"), "inf": float("inf")}[case["bad"]]
+            arg = np.array([v, 0.5]) if case["fn"] == "marginal_icdf" else np.array([v, 1.25])
+            kw = {"precision_factor": 0.05} if case["fn"] == "marginal_icdf" else {}
+            o, _ = _outcome(lambda: getattr(m, case["fn"])(arg, case["dim"], **kw))
+            key = case["fn"] + ":" + case["bad"]
+        else:
+            lims = [(0, 4)] * case["n_dim"]
+            lims[case["pos"]] = (4, 0)
+            o, _ = _outcome(lambda: V.HighestDensityContour(m, 0.1, limits=lims, deltas=case["deltas"]).coordinates
+                            if case["n_dim"] > 1 else
+                            np.concatenate([np.ravel(c) for c in np.atleast_1d(
+                                V.HighestDensityContour(m, 0.1, limits=lims, deltas=case["deltas"]).coordinates)]))
+            key = "deltas_" + ("given" if case["deltas"] is not None else "default")
+        ck.case(case, nontrivial=True, sample=(state["n"] % 13 == 0))
+        state["n"] += 1
+        ck.count("entry=observe")
+        ck.count("observed_only:%s:%s:%s" % (g, key, o))
+
+
 PT = {"f": 1.25, "nan": float("nan"), "inf": float("inf"), "ninf": float("-inf")}
 
 
@@ -1570,7 +1756,8 @@ def corpus_cases():
 
 
 PROCESS = {"model": process_model, "fit": process_fit, "slicer": process_slicer, "grid": process_grid,
-           "points": process_points, "twod": process_contours, "iform": process_contours}
+           "points": process_points, "twod": process_contours, "iform": process_contours,
+           "density": process_density, "observe": process_observe}
 
 
 def new_state():
@@ -1649,6 +1836,8 @@ def _explore(ck, rng, thorough, state):
     run_batch(ck, list(grid_cases(rng, thorough)), state)
     run_batch(ck, list(point_cases(rng, thorough)), state)
     run_batch(ck, list(contour_cases(rng, thorough)), state)
+    run_batch(ck, list(density_cases(rng, thorough)), state)
+    run_batch(ck, list(observe_cases(rng, thorough)), state)
     fc = list(fit_cases(rng, thorough))
     run_batch(ck, fc, state)
     run_batch(ck, list(fit_pair_cases(rng, 6000 if thorough else 600)), state)
